@@ -421,11 +421,12 @@ class Gen:
                 continue   # only circuits held through a single handle
             cands.append(h)
         if "child" in self.force:
-            cands = [h for h in cands if h == self.force.pop("child")]
+            forced = self.force.pop("child")
+            cands = [h for h in cands if h == forced]
         if not cands:
             return False
         child = rng.choice(cands)
-        if m.max_depth(m.roots[child]) + 1 > self.depth_cap:
+        if m.max_depth(m.roots[child]) + 1 > self.depth_cap and not self.in_scenario:
             return False
         if self.unrolled(parent) + self.unrolled(child) > 70 or m.leaf_count(parent) + m.leaf_count(child) > 40:
             return False
@@ -800,6 +801,93 @@ class Gen:
         self.force.update({"obs_handle": self.last_handle(), "what": "FULL"})
         self.mk_obs(0)
 
+    def _op_on(self, handle, kind, q, **extra):
+        """scripted ADD_OP of `kind` on qubits `q` (no relation), shadow model kept in line"""
+        st = {"s": 0, "op": "ADD_OP", "c": handle, "kind": kind, "q": list(q)}
+        st.update(extra)
+        self.emit(st)
+        self.model.add_op(handle, st, {"checked": False, "rt": "FOLLOWED_BY", "ref_key": None})
+        return st
+
+    def sc_deep_handle_export(self):
+        """a block two levels down is extended through a handle between two looks (export / drawing / listing) at the
+        outer circuit: outer holds the live structure of a circuit that holds a nested copy"""
+        rng = self.rng
+        self.force["reps"] = {"fixed": 1}
+        self.mk_new(0)
+        g = self.last_handle()
+        self._op_on(g, rng.choice(["Rx180", "Ry90", "Hadamard"]), [0])
+        if rng.random() < 0.4:
+            self._op_on(g, "DispersiveMeasure", [0], areg=g, tag="")
+        self.force["reps"] = {"fixed": rng.choice([1, 1, 2])}
+        self.mk_new(0)
+        f = self.last_handle()
+        if rng.random() < 0.6:
+            self._op_on(f, rng.choice(["Rx180", "Reset"]), [0])
+        self.force.update({"parent": f, "child": g})
+        self.mk_add_sub(0)
+        k = len(self.model.entries[f]) - 1
+        self.force["reps"] = {"fixed": 1}
+        self.mk_new(0)
+        main = self.last_handle()
+        if rng.random() < 0.7:
+            self._op_on(main, rng.choice(["Reset", "Rx180"]), [0])
+        if self.n_qubits > 1 and rng.random() < 0.5:
+            self._op_on(main, "Hadamard", [1])
+        self.force.update({"parent": main, "child": f})
+        if not self.mk_add_live(0):
+            self.force.clear()
+            return
+        what = rng.choice(["STIM", "STIM", "OPENQL", "PLOT", "LIST", "TIMES", "FULL"])
+        self.force.update({"obs_handle": main, "what": what})
+        self.mk_obs(0)
+        st = {"s": 0, "op": "ADD_OP_IN", "c": f, "k": k, "kind": rng.choice(["Ry90", "Rx180", "Rym90"]), "q": [0]}
+        if self.live_add_ok(f, self.model.entries[f][k], st):
+            self.emit(st)
+            self.model.add_op_in(f, st, {"checked": False, "rt": "FOLLOWED_BY", "ref_key": None})
+        self.force.update({"obs_handle": main, "what": what})
+        self.mk_obs(0)
+
+    def sc_two_deep_flatten(self):
+        """sub-circuits nested two deep, the inner one listed before a shallower parallel operation, something behind
+        the enclosing block on the inner block's qubit, then (unroll and) flatten and look at the indices"""
+        rng = self.rng
+        if self.n_qubits < 2:
+            return
+        self.force["reps"] = {"fixed": 1}
+        self.mk_new(0)
+        top = self.last_handle()
+        self.force["reps"] = {"fixed": rng.choice([1, 1, 2])}
+        self.mk_new(0)
+        inner = self.last_handle()
+        for _ in range(rng.randint(1, 2)):
+            self._op_on(inner, rng.choice(["Reset", "Rx180", "Ry90"]), [0])
+            self._op_on(inner, "DispersiveMeasure", [0], areg=inner, tag=rng.choice(["", "pre", "mid"]))
+        self.force["reps"] = {"fixed": 1}
+        self.mk_new(0)
+        block = self.last_handle()
+        first_inner = rng.random() < 0.7
+        if not first_inner:
+            self._op_on(block, "DispersiveMeasure", [1], areg=block, tag="")
+        self.force.update({"parent": block, "child": inner})
+        self.mk_add_sub(0)
+        if first_inner:
+            if rng.random() < 0.6:
+                self._op_on(block, "DispersiveMeasure", [1], areg=block, tag="")
+            else:
+                self._op_on(block, "Rx180", [1])
+        if rng.random() < 0.4:
+            self._op_on(top, "Rx180", [0])
+        self.force.update({"parent": top, "child": block})
+        self.mk_add_sub(0)
+        self._op_on(top, "DispersiveMeasure", [0], areg=top, tag="final")
+        self.force["handle"] = top
+        self.mk_apply(0)
+        self.force["handle"] = self.last_handle()
+        self.mk_flatten(0)
+        self.force.update({"obs_handle": self.last_handle(), "what": rng.choice(["ACQ", "FULL", "STIM"])})
+        self.mk_obs(0)
+
     def sc_annotated_block(self):
         """repeated block with measurements and Stim annotations (all detector shapes), exported before and after unrolling"""
         rng = self.rng
@@ -927,17 +1015,17 @@ class Gen:
         self.mk_obs(0)
 
     SCENARIOS = {
-        "C11": [(0.15, "sc_lib_apply_flatten"), (0.10, "sc_flatten_then_copy")],
+        "C11": [(0.05, "sc_two_deep_flatten"), (0.15, "sc_lib_apply_flatten"), (0.10, "sc_flatten_then_copy")],
         "C06": [(0.10, "sc_lib_apply_flatten"), (0.10, "sc_nested_reps"), (0.06, "sc_unroll_then_copy"), (0.10, "sc_three_levels"), (0.06, "sc_registry_reps_export"), (0.04, "sc_annotated_block")],
-        "C08": [(0.10, "sc_lib_apply_flatten"), (0.06, "sc_nested_reps"), (0.15, "sc_annotated_block"), (0.08, "sc_registry_reps_export")],
-        "C07": [(0.12, "sc_lib_apply_flatten"), (0.05, "sc_nested_reps"), (0.06, "sc_annotated_block")],
+        "C08": [(0.05, "sc_deep_handle_export"), (0.10, "sc_lib_apply_flatten"), (0.06, "sc_nested_reps"), (0.15, "sc_annotated_block"), (0.08, "sc_registry_reps_export")],
+        "C07": [(0.08, "sc_two_deep_flatten"), (0.12, "sc_lib_apply_flatten"), (0.05, "sc_nested_reps"), (0.06, "sc_annotated_block")],
         "C05": [(0.15, "sc_unroll_then_copy"), (0.05, "sc_nested_reps"), (0.06, "sc_three_levels"), (0.05, "sc_annotated_block"), (0.08, "sc_flatten_then_copy")],
-        "C02": [(0.12, "sc_nested_reps"), (0.05, "sc_flatten_then_copy")],
+        "C02": [(0.04, "sc_deep_handle_export"), (0.12, "sc_nested_reps"), (0.05, "sc_flatten_then_copy")],
         "C01": [(0.06, "sc_nested_reps"), (0.04, "sc_unroll_then_copy"), (0.06, "sc_flatten_then_copy")],
-        "C03": [(0.05, "sc_nested_reps"), (0.05, "sc_unroll_then_copy"), (0.04, "sc_lib_apply_flatten"), (0.03, "sc_three_levels"), (0.05, "sc_registry_reps_export"), (0.03, "sc_flatten_then_copy")],
+        "C03": [(0.04, "sc_deep_handle_export"), (0.05, "sc_nested_reps"), (0.05, "sc_unroll_then_copy"), (0.04, "sc_lib_apply_flatten"), (0.03, "sc_three_levels"), (0.05, "sc_registry_reps_export"), (0.03, "sc_flatten_then_copy")],
         "C04": [(0.05, "sc_nested_reps")],
-        "C18": [(0.04, "sc_lib_apply_flatten")],
-        "C15": [(0.08, "sc_registry_reps_export")],
+        "C18": [(0.04, "sc_lib_apply_flatten"), (0.04, "sc_deep_handle_export")],
+        "C15": [(0.08, "sc_registry_reps_export"), (0.04, "sc_deep_handle_export")],
     }
 
     # ------------------------------------------------------------ main loop
